@@ -72,7 +72,12 @@ def run(ctx):
         nso = 2 * norb
         bad = 0
         worst = None
+        several = len(list(w.sectors())) > 1
         for p, q, r, s in itertools.product(range(nso), repeat=4):
+            # Sz-changing elements couple different Sz sectors, which a spin-conserving wavefunction object does not do
+            # (documented domain restriction): with several sectors only the Sz-conserving elements are compared
+            if several and ((p % 2) + (q % 2)) != ((r % 2) + (s % 2)):
+                continue
             T = [(p, 1), (q, 1), (r, 0), (s, 0)]
             terms = [(c, T + t) for c, t in hterms] + [(-c, t + T) for c, t in hterms]
             e = parse_c(d.ask(f"expect {norb} {fmt_vec(ents)} {fmt_vec(ents)} {fmt_op(terms)}"))
@@ -92,6 +97,8 @@ def run(ctx):
                           itertools.product(range(nso), repeat=4) if abs(res[i, j, k, l]) > 1e-12]
                 badg, worstg = 0, None
                 for p, q, r, s in itertools.product(range(nso), repeat=4):
+                    if several and ((p % 2) + (q % 2)) != ((r % 2) + (s % 2)):
+                        continue
                     T = [(p, 1), (q, 1), (r, 0), (s, 0)]
                     terms = [(c, T + t) for c, t in sterms] + [(-c, t + T) for c, t in sterms]
                     e = parse_c(d.ask(f"expect {norb} {fmt_vec(ents)} {fmt_vec(ents)} {fmt_op(terms)}"))
